@@ -63,6 +63,10 @@ func isSyncType(t types.Type) bool {
 func runC15(c *Ctx) {
 	r := c.R
 	defer ruleOwnership(c, "R15.4")
+	defer func() {
+		c.R.Rule("R15.5", "the codec objects shared by all goroutines of a node keep no scratch state: ReadWriter.Write encodes into a buffer it allocates per call (= R4.4)", 2)
+		ruleEncodeBuffer(c, "R15.5")
+	}()
 	r.NotDecided = append(r.NotDecided,
 		"races inside user-supplied transports / dialect values",
 		"the absence of races as the race detector would observe it: this is a lockset / confinement discipline check, not a happens-before proof; the discipline classes are the trusted artefact")
